@@ -258,7 +258,9 @@ Step genSearchStep(Choices& c, GenState& st, const Pool& pl, const GenCfg& cfg, 
             int n = c.range(1, std::min<int>(3, (int)lm.size()));
             for (int i = 0; i < n; i++) go += " " + lm[c.pick((int)lm.size())].uci();
         }
-        if (lk <= 4) go += " depth " + std::to_string(c.range(1, 4));
+        // cost guard by construction: MultiPV > 1 or no null move make even depth 4 explode with a flat evaluation (14 M nodes seen)
+        int dcap = st.cur["MultiPV"] != "1" ? 2 : st.cur["UseNullMove"] == "false" ? 3 : 4;
+        if (lk <= 4) go += " depth " + std::to_string(std::min(dcap, c.range(1, 4)));
         else if (lk <= 6) go += " nodes " + std::to_string(c.range(1, 2000));
         else if (lk == 7) { go += " movetime " + std::to_string(c.range(1, 30)); timed = true; }
         else if (lk <= 9) {
@@ -266,7 +268,7 @@ Step genSearchStep(Choices& c, GenState& st, const Pool& pl, const GenCfg& cfg, 
             if (c.flip()) go += " winc " + std::to_string(c.range(0, 20)) + " binc " + std::to_string(c.range(0, 20));
             if (c.flip()) go += " movestogo " + std::to_string(c.range(0, 40));
             timed = true;
-        } else if (lk == 10) go += " mate " + std::to_string(c.range(1, 2));
+        } else if (lk == 10) go += " mate " + std::to_string(dcap < 4 ? 1 : c.range(1, 2));
         else if (lk == 11) go += " depth " + std::to_string(c.range(1, 3)) + " nodes " + std::to_string(c.range(100, 2000));
         else { if (!ponder) { go += " infinite"; infinite = true; } }
         if (ponder) {
@@ -401,6 +403,7 @@ RunOut runProcess(const Case& k, bool withHistory, const std::string& tag) {
             }
             e.scanPos = from;
             if (e.waitPrefix("bestmove", gAnswerMs) < 0) {
+                if (!e.tryReap() && getenv("C14_DEBUG")) { fprintf(stderr, "UNANSWERED search %d\n", idx); size_t a0 = e.log.size() > 40 ? e.log.size() - 40 : 0; for (size_t q = a0; q < e.log.size(); q++) fprintf(stderr, "  %c %s\n", e.log[q].dir, e.log[q].line.substr(0, 160).c_str()); fprintf(stderr, "  cpu ticks %ld\n", e.cpuTicks()); }
                 if (e.tryReap()) died("during prior search " + std::to_string(idx) + " (" + s.go + ")"); else { out.inconclusive = true; out.where = "prior search unanswered: " + s.go.substr(0, s.go.find(' ', 3)) + (s.tb ? " (table root)" : ""); }
                 return out;
             }
